@@ -1,6 +1,6 @@
 import LentilVerif.Model.PropSeg
-import LentilVerif.Lemmas.Plane
-import LentilVerif.Props.C06
+import LentilVerif.Lemmas.PlaneAlg
+import LentilVerif.Props.C07
 /-! # C03 — splitting an aperture into segments never changes the result
 
 Property theorems only. `Gen.sliceOffset` is regenerated from lentil/helper.py on every run. -/
@@ -26,5 +26,88 @@ theorem slice_offset_embeds {K : Type} [Zero K] (g : Int → Int → K) (r0 r1 c
   · have hin : ¬ (Extent.mk (r0 - S0 / 2) (r1 - 1 - S0 / 2) (c0 - S1 / 2) (c1 - 1 - S1 / 2)).inb r c = true := by
       rw [Extent.inb_iff]; simp only; omega
     rw [if_neg hin, if_neg h]
+
+section segments
+variable {K R : Type} [NonUnitalNonAssocSemiring K]
+
+/-- **segments add up to the monolithic aperture**: for masks with pairwise disjoint supports the segment transmissions
+sum, at every pixel, to the transmission of the union mask — whatever the amplitude and OPD (scalar or array), and
+whatever the bounding boxes (they do not even appear: `segPhasor_emb` shows the mask factor zeroes the foreign pixels
+of an overlapping box) -/
+theorem segments_sum (ph : R → K) (amp : Attr K) (opd : Attr R) (S0 S1 : Int) (ms : List (Int → Int → Bool))
+    (hdis : ms.Pairwise (fun a b => ∀ i j, ¬ (a i j = true ∧ b i j = true))) (r c : Int) :
+    sumList ms (fun m => segFactor ph amp opd S0 S1 m r c)
+      = segFactor ph amp opd S0 S1 (fun i j => ms.any (fun m => m i j)) r c := by
+  induction ms with
+  | nil => simp [segFactor]
+  | cons m ms ih =>
+    rw [sumList_cons, ih (List.Pairwise.of_cons hdis)]
+    have hrest : ∀ b ∈ ms, ∀ i j, ¬ (m i j = true ∧ b i j = true) := (List.pairwise_cons.mp hdis).1
+    unfold segFactor
+    simp only [List.any_cons, Bool.or_eq_true]
+    by_cases hm : m (r + S0 / 2) (c + S1 / 2) = true
+    · have hnone : ¬ (ms.any (fun m => m (r + S0 / 2) (c + S1 / 2)) = true) := by
+        intro hh
+        obtain ⟨b, hb, hb'⟩ := List.any_eq_true.mp hh
+        exact hrest b hb _ _ ⟨hm, hb'⟩
+      simp [hm, hnone]
+    · simp [hm]
+
+/-- **one plane, two descriptions**: a plane whose mask is split into segments with pairwise disjoint supports (any
+bounding slices covering them, overlapping or not) produces the same total field, at every pixel, as the plane with the
+single union mask — for any number of incoming fields. Hypotheses `hbig*`: no bounding box is a single pixel (known
+finding KF-C03-one-pixel-segment). -/
+theorem segmented_eq_monolithic (ph : R → K) (amp : Attr K) (opd : Attr R) (S0 S1 : Int) (l : List Seg) (g0 : Seg)
+    (hc : ∀ g ∈ l, g.covers S0 S1) (hc0 : g0.covers S0 S1)
+    (hbig : ∀ g ∈ l, g.s.r0 < g.s.r1 ∧ g.s.c0 < g.s.c1 ∧ ¬ (g.s.r1 - g.s.r0 = 1 ∧ g.s.c1 - g.s.c0 = 1))
+    (hbig0 : g0.s.r0 < g0.s.r1 ∧ g0.s.c0 < g0.s.c1 ∧ ¬ (g0.s.r1 - g0.s.r0 = 1 ∧ g0.s.c1 - g0.s.c0 = 1))
+    (hdis : (l.map Seg.m).Pairwise (fun a b => ∀ i j, ¬ (a i j = true ∧ b i j = true)))
+    (hM : ∀ i j, g0.m i j = (l.map Seg.m).any (fun m => m i j))
+    (data : List (Fld K)) (hd : ∀ f ∈ data, 0 < f.arr.s0 ∧ 0 < f.arr.s1) (r c : Int) :
+    sumList (planeMultiply ph ⟨amp, opd, .segs S0 S1 l⟩ data) (fun g => g.emb r c)
+      = sumList (planeMultiply ph ⟨amp, opd, .segs S0 S1 [g0]⟩ data) (fun g => g.emb r c) := by
+  rw [C07.plane_multiply_pointwise ph amp opd S0 S1 l hc hbig data hd r c,
+      C07.plane_multiply_pointwise ph amp opd S0 S1 [g0] (by simpa using hc0) (by simpa using hbig0) data hd r c]
+  congr 1
+  rw [sumList_cons, sumList_nil, add_zero]
+  have := segments_sum ph amp opd S0 S1 (l.map Seg.m) hdis r c
+  rw [sumList_map] at this
+  rw [this]
+  exact (segFactor_congr ph amp opd S0 S1 _ _ r c (hM _ _)).symm
+
+/-- **chains of planes distribute**: after any chain of planes the total field is the total incoming field times the
+product of the plane transmissions, pixel by pixel — the sum over all (field × segment × segment × …) products equals
+the product of the sums. (`ChainOK`: positive shapes and no one-element intermediate field.) -/
+theorem chain_distrib (ph : R → K) (ps : List (PlaneM K R)) (data : List (Fld K)) (hok : ChainOK ph ps data) (r c : Int) :
+    sumList (chainMultiply ph ps data) (fun g => g.sem r c)
+      = ps.foldl (fun acc p => acc * planeT ph p r c) (sumList data (fun f => f.sem r c)) := by
+  induction ps generalizing data with
+  | nil => rfl
+  | cons p ps ih =>
+    obtain ⟨hd, hq, h1, hs, hrest⟩ := hok
+    show sumList (chainMultiply ph ps (planeMultiply ph p data)) (fun g => g.sem r c) = _
+    rw [ih _ hrest, List.foldl_cons]
+    congr 1
+    unfold planeT
+    rw [← C07.plane_multiply_total ph p data hd hq h1 r c]
+    apply sumList_congr
+    intro g hg
+    simp only [Fld.sem, hs g hg, Bool.false_eq_true, if_false]
+
+/-- hence two chains whose planes have pairwise equal transmissions (e.g. segmented vs monolithic, plane by plane, by
+`segments_sum`) give the same total field at every pixel -/
+theorem chain_segmented_eq (ph : R → K) (ps qs : List (PlaneM K R)) (data : List (Fld K))
+    (hp : ChainOK ph ps data) (hq : ChainOK ph qs data)
+    (hT : ps.map (planeT ph) = qs.map (planeT ph)) (r c : Int) :
+    sumList (chainMultiply ph ps data) (fun g => g.sem r c) = sumList (chainMultiply ph qs data) (fun g => g.sem r c) := by
+  rw [chain_distrib ph ps data hp, chain_distrib ph qs data hq]
+  have key : ∀ (l : List (PlaneM K R)) (a : K),
+      l.foldl (fun acc p => acc * planeT ph p r c) a = (l.map (planeT ph)).foldl (fun acc t => acc * t r c) a := by
+    intro l; induction l with
+    | nil => intro a; rfl
+    | cons x xs ih => intro a; simp only [List.foldl_cons, List.map_cons]; exact ih _
+  rw [key, key, hT]
+
+end segments
 
 end Lentil.C03
